@@ -173,12 +173,12 @@ def runner(fn):
     return fn
 
 
-def _stream(ctx, modes):
+def _stream(ctx, modes, env=None, seed=None, tag=''):
     """stream-level correspondence + property oracles on the implementation's own outputs"""
     out_path = os.path.join(C.CACHE, f'streamcorr-{ctx.pid}-{os.getpid()}.json')
-    cmd = [os.path.join(C.TARGET, 'streamcorr'), '--model', C.MODEL, '--tier', ctx.tier, '--seed', str(ctx.seed),
+    cmd = [os.path.join(C.TARGET, 'streamcorr'), '--model', C.MODEL, '--tier', ctx.tier, '--seed', str(ctx.seed if seed is None else seed),
            '--threads', '12', '--out', out_path] + modes
-    rc, out = C.run(cmd, timeout=14400)
+    rc, out = C.run(cmd, timeout=14400, env=env)
     for l in out.strip().splitlines():
         C.log(l[:160])
     if rc != 0 or not os.path.exists(out_path):
@@ -189,7 +189,7 @@ def _stream(ctx, modes):
     for s in doc['suites']:
         mode = s['suite'].replace('stream-', '')
         mine = [f for f in s['oracle_failures'] if f'{pid}:' in f['property_failure']]
-        ctx.parts.append(dict(name=f"stream-corr({mode})", evaluations=s['evaluations'], distinct_nontrivial=s['distinct_nontrivial'],
+        ctx.parts.append(dict(name=f"stream-corr({mode}{tag})", evaluations=s['evaluations'], distinct_nontrivial=s['distinct_nontrivial'],
                               rule=s['rule'], samples=[], distribution=s['distribution'], wall_s=s.get('wall_s'),
                               model_disagreements=s['disagreement_count'], impl_property_failures=s['oracle_failure_count'],
                               impl_property_failures_for_this_property=len(mine)))
@@ -210,6 +210,16 @@ def _stream(ctx, modes):
 @runner
 def stream(ctx):
     _stream(ctx, ctx.spec.get('stream_modes', ['corr', 'neutral']))
+
+
+@runner
+def stream_env(ctx):
+    """the same correspondence with the tool running under perturbed environments: the model has no environment"""
+    for i, (tz, lang, lc) in enumerate([('Pacific/Kiritimati', 'tr_TR.UTF-8', 'C.UTF-8'), ('America/St_Johns', 'de_DE.ISO-8859-1', 'POSIX')]):
+        tmp = os.path.join(C.CACHE, f'other tmp {i}')
+        os.makedirs(tmp, exist_ok=True)
+        env = dict(C.ENV, TZ=tz, LANG=lang, LC_ALL=lc, LANGUAGE='tr:de', TMPDIR=tmp)
+        _stream(ctx, ['corr'], env=env, seed=ctx.seed * 31 + 7 + i, tag=f', TZ={tz} LANG={lang} LC_ALL={lc} TMPDIR=other')
 
 
 E2E_COUNTS = {'quick': {'filter': 160, 'neutral': 120, 'rules': 80}, 'thorough': {'filter': 4000, 'neutral': 3000, 'rules': 1200}}
@@ -345,6 +355,59 @@ E2E_RULES['analyze'] = ('generated histories (plain and bare) extended by plumbi
 E2E_COUNTS['quick']['detect'] = 120
 E2E_COUNTS['thorough']['detect'] = 2500
 E2E_RULES['detect'] = ('generated histories extended by plumbing with 2-6 tokens drawn from the 22 built-in families and two custom patterns (with and without a capture group), embedded in filler text with varied delimiters and quotes, placed in a file deleted by the next commit, in a commit reachable only from an annotated tag, and on a side branch as text / binary / >2 MiB / mostly-non-ASCII blob; decoy placeholders; a token in an unreachable blob; every 17th case 530 distinct values; database passwords that start with #, contain ==> or look like regex:/glob: rules. Then --detect-secrets with the custom patterns, then --replace-text with the generated file, then a rescan of all reachable blobs. Non-trivial: the scan exits 0.')
+
+
+E2E_COUNTS['quick']['twice'] = 150
+E2E_COUNTS['thorough']['twice'] = 3000
+E2E_RULES['twice'] = ('every generated (history, option set) pair is built into a repository (plain, fresh clone with an origin, bare), copied, and the real CLI is run on both copies with identical options: once plainly, once under a different TZ, LANG, LC_ALL, LANGUAGE and TMPDIR, with niceness 5-14, pinned to one CPU, from a path with blanks, and with a PATH shim for git that delays every child and re-chunks all piped I/O through dd (chunk sizes 1-65536; modes chunk / slow / buffer-all-output); for-each-ref, HEAD, commit-map, ref-map and fast-export.filtered of the two runs are compared byte for byte. Non-trivial: both runs succeed.')
+
+
+@runner
+def e2e_twice(ctx):
+    _e2e(ctx, ['twice'], fn_name='twice_case', gen_mode='filter', label='twice')
+
+
+@runner
+def e2e_sweep(ctx):
+    """C17: the real binary on repositories sized across the pipe-buffer boundaries, children paced by the shim, wall-clock bound"""
+    from . import e2e
+    with C.BuildLock():
+        ok, out = C.cli_build()
+    if not ok:
+        raise C.Infra('the CLI of /repo does not build')
+    t0 = time.time()
+    cases = e2e.sweep_cases(ctx.tier)
+    results = e2e.run_pool(e2e.sweep_case, cases, workers=8)
+    dist, mine, big = {}, [], 0
+    for r, c in zip(results, cases):
+        for k, v in r['dist'].items():
+            dist[k] = max(dist.get(k, 0), v) if k == 'max-wall-s' else dist.get(k, 0) + v
+        if r.get('error'):
+            dist['harness-errors'] = dist.get('harness-errors', 0) + 1
+            ctx.notes.append(f"e2e(sweep) harness error: {r['error'][:200]}")
+        if r['dist'].get('tool-ok') and r['dist'].get('objects', 0) * max(60, c['blobsize']) > 65536:
+            big += 1
+        for (p, msg) in r['failures']:
+            mine.append((c, msg))
+    ctx.parts.append(dict(name='e2e(size sweep)', evaluations=len(cases), distinct_nontrivial=big,
+                          rule='enumerated: --detect-secrets on repositories of 300 … 12 000 objects (thorough: every 50 between 1 400 and 3 400, up to 120 000) so that ids in flight × bytes per reply cross the 64 KiB pipe buffers (41-byte ids: 1 598 per pipe; ~55-byte replies: ~1 190 per pipe), and with blobs of 700 … 70 000 bytes (thorough … 300 000); --analyze on 100 … 6 000 commits (thorough … 15 000); filtering with no option, with --path-rename + --max-blob-size, with --path + --prune-empty on 200 … 2 500 commits (thorough … 8 000) and on blobs of 70 000 / 300 000 bytes (thorough … 3 MB); each with the git children unpaced, re-chunked (113/251-byte dd relays), slowed, or with their whole output buffered, under perturbed TZ/LANG/TMPDIR; wall-clock bound 900 s per run, a timeout or a non-zero exit is a violation. Non-trivial: a successful run whose traffic exceeds one pipe buffer.',
+                          samples=[{k: cases[i][k] for k in ('mode', 'n', 'blobsize', 'shim', 'args')} for i in (0, len(cases) // 2, len(cases) - 1)],
+                          distribution=dist, wall_s=round(time.time() - t0, 1), exhaustive=False, impl_property_failures_for_this_property=len(mine)))
+    for c, msg in mine[:3]:
+        path = C.write_replay(ctx.pid, 'oracle-failure', dict(runner='e2e_sweep', case=c, property_failure=msg))
+        ctx.violations.append((path, False, msg[:300]))
+
+
+def _replay_sweep(ctx, doc, path):
+    from . import e2e
+    with C.BuildLock():
+        C.cli_build()
+    r = e2e.sweep_case(doc['case'])
+    print(json.dumps(r, indent=1)[:2000])
+    if r['failures']:
+        print(f'VIOLATION property={ctx.pid} replay={path}')
+        return 1
+    return 0
 
 
 @runner
@@ -487,4 +550,4 @@ def replay(ctx, path):
     return check(ctx, time.time())
 
 
-REPLAYERS = {'stream': _replay_stream, 'e2e': _replay_e2e, 'e2e_sanity': _replay_sanity}
+REPLAYERS = {'stream': _replay_stream, 'e2e': _replay_e2e, 'e2e_sanity': _replay_sanity, 'e2e_sweep': _replay_sweep}
